@@ -180,6 +180,7 @@ func rulesC02(c *Ctx) {
 	}
 	// ---- (c) mutators
 	ix := c.P.BuildIndex()
+	rulesC02Round2(c, ix)
 	if fn := c.needFn("C02.mutate", "storage/mkvs.(*tree).Insert"); fn != nil {
 		c.successOnlyVia("C02.mutate", fn, CallsTo(fn, "doInsert", "storage/mkvs.(*tree).doInsert", ""), "every accepted insert performs the structural update (no value-dependent shortcut)")
 		c.OnAllSuccessExits("C02.mutate", fn, CallsTo(fn, "doInsert", "storage/mkvs.(*tree).doInsert", ""), CallsTo(fn, "setPendingRoot", "storage/mkvs.(*cache).setPendingRoot", ""), "the new root replaces the pending root")
